@@ -7,6 +7,7 @@ BH retention (per-bin N, M), the reported age, stellar losses vs the IMF above
 the final turn-off mass, from_BHMF bins / sum / power law, kicks only remove.
 """
 import math
+import os
 import warnings
 
 import numpy as np
@@ -148,6 +149,32 @@ def run(chk):
                          "(bh_field (O:=F_ops) cfg (0x1.999999999999ap-4) %s %s %s %s %s %s)" % (
                              C.fl(cf["a"][-1]), C.fl(pop.age), C.fl(t), C.fll(y[:nb.MS]), C.fl(m_rem), cls))
             meta.append((dict(cfg=ci, t=t, y=[float(v) for v in ybh]), out, knife))
+        if spans:
+            # machine-checked witness of the listed finding bh_slope_last_segment, regenerated from the implementation's own tables and
+            # bins: at an age whose turn-off mass lies in the second-to-last IMF segment the simplified field (slope of the LAST segment)
+            # and the full stellar-evolution field (the bin's own slope, full retention) give different fluxes
+            y_w = mb.initial_values(N0=N0)
+            t_w = float(full.compute_tms(0.5 * (lastseg_lo + max(float(full.IFMR.BH_mi.lower) + 0.2, cf["mb"][-3]))))
+            mto_w = float(full.compute_mto(np.array(t_w)))
+            if t_w < pop.age and mto_w < lastseg_lo:
+                mrem_w, cls_w = float(full.IFMR.predict(mto_w)), full.IFMR.predict_type(mto_w)
+                wsrc = (C.HEADER % IMPORTS + defs +
+                        "Definition dn (r : res (option (sev_out (T:=float)))) : float := match r with Ok (Some s) => match so_dNdt s with Some x => x | None => nan end "
+                        "| _ => nan end.\n"
+                        "Definition dn_bh := dn (bh_field (O:=F_ops) cfg (0x1.999999999999ap-4) %s %s %s %s %s %s).\n"
+                        "Definition dn_full := dn (sev_field (O:=F_ops) cfg %s %s %s %s %s).\n"
+                        "Lemma bh_slope_last_segment_witness : PrimFloat.ltb dn_bh 0 = true /\\ PrimFloat.ltb dn_full 0 = true /\\ "
+                        "PrimFloat.ltb (dn_full * 0x1.0cccccccccccdp+0) dn_bh = true \\/ PrimFloat.ltb dn_bh 0 = true /\\ PrimFloat.ltb dn_full 0 = true /\\ "
+                        "PrimFloat.ltb (dn_bh * 0x1.0cccccccccccdp+0) dn_full = true.\n"
+                        "Proof. vm_compute. first [left; repeat split; reflexivity | right; repeat split; reflexivity]. Qed.\n" % (
+                            C.fl(cf["a"][-1]), C.fl(pop.age), C.fl(t_w), C.fll(y_w[:nb.MS]), C.fl(mrem_w), cls_w,
+                            C.fl(t_w), C.fll(y_w[:nb.MS]), C.fll(y_w[nb.MS:2 * nb.MS]), C.fl(mrem_w), cls_w))
+                os.makedirs(C.GEN, exist_ok=True)
+                wpath = os.path.join(C.GEN, "C19Witness.v")
+                open(wpath, "w").write(wsrc)
+                rc_, out_, err_ = C.coqc(wpath, timeout=300)
+                chk.oblige("[gen] listed finding bh_slope_last_segment is real in the model: at m_to = %.3g (second-to-last IMF segment) the simplified "
+                           "and the full field differ by more than 5%% (vm_compute on the regenerated configuration)" % mto_w, rc_ == 0, (err_ or out_)[-400:] if rc_ else "")
         vals = C.eval_cases("C19_%d" % ci, IMPORTS, defs, exprs, shard=100)
         for (case, out, knife), v in zip(meta, vals):
             ncase += 1
